@@ -39,11 +39,28 @@
                                   controller (Index, Applied.Index, Proposed.Index), the configuration and the mastership
                                   controller are pending: every id whose enabledness depends only on the written record
                                   keeps a token.
-                                  MISSING for [tokens] (each needs the chain invariants C_inv / T_inv / G_inv of
+     C09_wait_a_has_token         PROVED for every reachable queued world (wait (a)): an INITIALIZING transaction that is
+                                  enabled is pending, or its predecessor is INITIALIZED and has not started validating -
+                                  and the write that takes the predecessor past its validate gate returns Requeue{i}.
+     C09_wait_b_has_token         PROVED for every reachable queued world (wait (b)): an enabled transaction at one of the
+                                  three gates (INITIALIZED / VALIDATED / COMMITTED, next phase not started) is pending: the
+                                  transaction event of the SERIALIZABLE predecessor that opens the gate names it (tx_wakes,
+                                  eabfc1f; uses J, K, T_inv, C_inv of the protocol model lifted to queued worlds).
+     C09_fixpoint_partial2        the fixed-point theorem with the token hypothesis ONLY for the ids that are not an
+                                  INITIALIZING or gate-state transaction ([tokens_rest]): all queues empty => a reconcile
+                                  has no effect, or it is an INITIALIZING transaction whose predecessor is INITIALIZED and
+                                  parked at the validate gate, closed behind a SERIALIZABLE transaction that is not
+                                  VALIDATED yet ([parked_behind_gate]; excluding it at an idle world needs the descent over
+                                  transaction indexes: that older transaction must itself have something pending).
+                                  Note: [tokens] as stated (effect-free hand-overs only) is NOT an invariant of the non-idle
+                                  reachable worlds - exactly wait (a) breaks it, between the predecessor's INITIALIZED write
+                                  and its next reconcile (1.7 million reachable states checked by ocaml/c09_search.ml with
+                                  C09_INV=2: no other shape) - which is why (a) is stated with the guardian disjunct.
+                                  STILL MISSING for [tokens_rest] (each needs the chain invariants C_inv / T_inv / G_inv of
                                   Proofs/P2_Cursor*.v, which hold in every queued world by C09_queue_runs_are_runs, plus a
                                   case analysis per waiting state): the cross-record waits -
-                                  (a) transaction i INITIALIZING behind transaction i-1 (token: Requeue{i+1});
-                                  (b) a transaction at a SERIALIZABLE gate (token: tx_wakes names the successors);
+                                  the transaction controller's phase scans (woken by the proposal events: record-local,
+                                      C09_writes_wake_owners) and
                                   (c) a proposal waiting for Committed / Applied.Index = PrevIndex (token: the predecessor's
                                       requeue_next, or the walk back from Proposed.Index / first_unapplied);
                                   (d) a proposal in APPLYING waiting for master / term / synchronisation / connection
@@ -64,7 +81,7 @@
 From stdpp Require Import gmap.
 From Coq Require Import NArith.
 From OC Require Import Base.Bytes Model.P2Pure Model.Proto2 Model.P2Inst Model.Proto2Queue Model.P2QInst
-     Proofs.P2Base Proofs.P2Phases Proofs.P2_Queue Proofs.P2_QueueWitness.
+     Proofs.P2Base Proofs.P2Phases Proofs.P2_Queue Proofs.P2_QueueWaitA Proofs.P2_QueueWitness.
 Open Scope N_scope.
 
 Section C09.
@@ -106,6 +123,27 @@ Section C09.
   Proof. exact (delivery_wakes_owners candidate candidate_rb rollback_of overlay commit_merge payload record_applied touched restore
                   resync_payload doc_ok dev_apply stamp v_empty d_empty ch_empty). Qed.
 
+  Theorem C09_wait_a_has_token : forall (s : @qworld V Ch Req D), qreach s ->
+    forall i (T : @txn Ch), txs (qw s) !! i = Some T -> t_init T = Some Doing -> fst (reconcile (mkOracle true true COk 0 0) (qw s) (CtlTx i)) <> [] ->
+      In (CtlTx i) (queue s) \/ exists P, txs (qw s) !! (i - 1) = Some P /\ at_init_gate P.
+  Proof. exact (wait_a_reach candidate candidate_rb rollback_of overlay commit_merge payload record_applied touched restore
+                  resync_payload doc_ok dev_apply stamp v_empty d_empty ch_empty). Qed.
+
+  Theorem C09_wait_b_has_token : forall (s : @qworld V Ch Req D), qreach s ->
+    forall j (T : @txn Ch), txs (qw s) !! j = Some T -> gate_state T -> fst (reconcile (mkOracle true true COk 0 0) (qw s) (CtlTx j)) <> [] ->
+      In (CtlTx j) (queue s).
+  Proof. exact (wait_b_reach candidate candidate_rb rollback_of overlay commit_merge payload record_applied touched restore
+                  resync_payload doc_ok dev_apply stamp v_empty d_empty ch_empty). Qed.
+
+  Theorem C09_fixpoint_partial2 : forall (s : @qworld V Ch Req D),
+    qreach s ->
+    tokens_rest candidate candidate_rb rollback_of overlay commit_merge payload record_applied touched restore resync_payload doc_ok
+                stamp v_empty d_empty ch_empty s ->
+    idle s = true ->
+    forall c o, fst (reconcile o (qw s) c) = [] \/ parked_behind_gate stamp (qw s) c.
+  Proof. exact (fixpoint_of_tokens_rest candidate candidate_rb rollback_of overlay commit_merge payload record_applied touched restore
+                  resync_payload doc_ok dev_apply stamp v_empty d_empty ch_empty). Qed.
+
   Theorem C09_terminates_partial : forall (o : oracle) (w : @world V Ch Req D) (c : ctrl),
     (match c with CtlTx _ | CtlProp _ => True | _ => False end) -> Forall (forward w) (fst (reconcile o w c)).
   Proof. exact (records_move_forward candidate candidate_rb rollback_of overlay commit_merge payload record_applied touched restore
@@ -123,6 +161,9 @@ Print Assumptions C09_queue_runs_are_runs.
 Print Assumptions C09_enabled_only_stored.
 Print Assumptions C09_fixpoint_partial.
 Print Assumptions C09_writes_wake_owners.
+Print Assumptions C09_wait_a_has_token.
+Print Assumptions C09_wait_b_has_token.
+Print Assumptions C09_fixpoint_partial2.
 Print Assumptions C09_terminates_partial.
 Print Assumptions C09_rank_bounds.
 Print Assumptions C09_busy_wait_refuted.
